@@ -91,15 +91,20 @@ def rule_x1(select=None):
                 R.trivial(); continue
             nm += 1
             counts = {}
+            bad = []
             for i, m in lk:
                 nl += 1
                 k = counts.get(m, 0); counts[m] = k + 1
                 desc = "lookup:%s#%d" % (m, k)
                 R.inst(fn, desc, {"method": fn[len(ENGINE):], "lookup": m, "at": b.loc(i), "expiry_checked": i in ok})
                 if i not in ok:
-                    R.finding(fn, desc,
-                              "shard-map lookup `%s` (line %d) is used without consulting is_expired(): a key past its deadline is treated as present until the sweeper runs"
-                              % (m, b.bb_line(i)), b.loc(i))
+                    bad.append((i, m))
+            if bad:
+                # one finding per method: the key does not depend on the lookup idiom (get_mut / entry / get)
+                i, m = bad[0]
+                R.finding(fn, "lookup-without-expiry-check",
+                          "%s uses shard-map lookup `%s` (line %d%s) without consulting is_expired(): a key past its deadline is treated as present until the sweeper runs"
+                          % (fn.split("::")[-1], m, b.bb_line(i), ", and %d more" % (len(bad) - 1) if len(bad) > 1 else ""), b.loc(i))
         R.floor("methods_with_lookups", nm)
         R.floor("lookup_sites", nl)
     return rule
@@ -131,6 +136,8 @@ def rule_x2(ctx, R):
                       % b.bb_line(i), b.loc(i))
 
 
+PT_PLUMB = re.compile(prov.PASS_THROUGH.pattern[:-1] +
+                      r"|^std::option::Option::<.*>::(ok_or|ok_or_else|map|filter)(::<.*>)?$|^std::result::Result::<.*>::(map_err|map)(::<.*>)?$)")
 META_WRITERS_OK = ("storage::value::ValueMetadata::new", "storage::value::ValueMetadata::with_expiration",
                    "storage::value::ValueMetadata::set_expiration", "storage::value::ValueMetadata::clear_expiration",
                    "<storage::value::ValueMetadata as std::default::Default>::default")
@@ -184,9 +191,9 @@ def rule_x3(ctx, R):
             if not re.search(SHARD_MAP + r"insert\b", t["f"]):
                 continue
             ni += 1
-            P = prov.operand_origins(b, t["a"][2], stop_calls=stop) if len(t["a"]) >= 3 else None
+            P = prov.operand_origins(b, t["a"][2], stop_calls=stop, pass_through=PT_PLUMB) if len(t["a"]) >= 3 else None
             calls = sorted({shared.short_callee(r[1]) for r in P.roots if r[0] == "call"}) if P else []
-            fresh = any(c.startswith("StoredValue::") for c in calls)
+            fresh = any(c.startswith("StoredValue::") for c in calls) or (P is not None and any(r[0] == "agg" and r[1].startswith("storage::value::StoredValue") for r in P.roots))
             moved = any(c == "HashMap::remove" for c in calls)
             looked = any(c in ("HashMap::get", "HashMap::get_mut") for c in calls)
             desc = "insert#%d" % k; k += 1
@@ -208,6 +215,9 @@ WHOLE_VALUE = {"SET", "MSET", "GETSET", "SETNX", "SETEX", "PSETEX", "RENAME", "R
 MAP_LOOKUP = re.compile(SHARD_MAP + r"(get|get_mut|get_key_value|remove|remove_entry)\b")
 
 
+OPT_SHAPE_PT = re.compile(prov.PASS_THROUGH.pattern[:-1] + r"|^std::option::Option::<.*>::(map|inspect|as_deref_mut)(::<.*>)?$)")
+
+
 class AbsentSpec(boolpath.Spec):
     """evidence: the key has no live entry (lookup returned None, contains_key false, entry expired)"""
 
@@ -217,7 +227,8 @@ class AbsentSpec(boolpath.Spec):
         pl = op_place(o)
         if "Option<" not in b.locals[pl["l"]]:
             return False
-        P = prov.origins(b, pl["l"], stop_calls=re.compile(SHARD_MAP))
+        # through shape-preserving Option adaptors: `data.get_mut(k).map(|sv| &mut sv.value)`
+        P = prov.origins(b, pl["l"], stop_calls=re.compile(SHARD_MAP), pass_through=OPT_SHAPE_PT)
         return any(r[0] == "call" and MAP_LOOKUP.search(r[1]) for r in P.roots)
 
     def call(s, b, bbi, t):
